@@ -173,6 +173,10 @@ func main() {
 			emit(&outLine{K: "at", I: i, Seed: seed})
 		}
 		t := simrt.NewTape(seed)
+		if tr := os.Getenv("VERIF_TRACE"); tr != "" && tr == strconv.Itoa(i) {
+			t.Trace = true
+			defer func() { os.WriteFile(os.Getenv("VERIF_TRACE_OUT"), t.Log, 0o644) }()
+		}
 		c := &Ctx{T: t, Tier: *tier, Cfg: cfg, Cnt: cnt, Run: i}
 		simrt.ResetPools()
 		r := w.run(c)
